@@ -61,6 +61,9 @@ CLAIMS = {
     "C18": ("laws (NeoHookean, MooneyRivlin, CiarletGeymonat, SaintVenantKirchhoff, HolzapfelOgden with random fibres, an AutoDiff user energy; 2-D plane strain and 3-D): on homogeneous deformations u = (F - I)X of a real mesh (random F, det F in [0.6, 1.8]) central finite differences in the Green-Lagrange strain of the observed W and dWde against Compute_dWde / Compute_d2Wde, major symmetry, twin states (QF - I)X for random rotations, W = 0 and stress = 0 in the reference configuration. operators (PK2, Gonzalez consistent / simplified, TimeQuadrature fixed 1-9 points and adaptive with coefK in {0.5, 1, 1-alpha}, ActiveStress, KelvinVoigt, FollowingPressure, PenaltyContact against an analytic plane) on random displacement pairs of 1-6-element groups of 13 element types: returned tangent against finite differences of the returned residual with the documented scaling, internal force against the finite difference of the element energy, discrete power balance R.du = dW, zero-step consistency of every quadrature rule, C = dR/dv and R = C v. assembly: the Newton matrix coefK K + coefC C + coefM M of the simulation against finite differences of its complete residual for elliptic / newmark / hht / hht_newmark / midpoint / euler_implicit x pointwise / gonzalez / quadrature stresses with viscosity and active stress. dynamics: free motion of unconstrained bodies under midpoint with the gonzalez, simplified-tangent gonzalez, adaptive and fixed quadrature stresses: kinetic + stored energy at every converged step against the initial one",
             "finite-difference step 1e-6, derivative tolerance 1e-6; meshes of one cell (operators) to ~12 elements (dynamics); 30-120 time steps; energy drift tolerance 1e-8 (1e-7 adaptive quadrature); adaptive rules that hit the documented 33-point cap are not judged; contact only against a plane",
             "finite-difference and invariance oracles on executed constitutive / operator routines + energy trace checker over simulated free-motion histories"),
+    "C19": ("the real Behavior.Integrate is driven along seeded strain paths (random walks, reversals, non-proportional turns, 0.05-5 yield strains per step) on batches of independent Gauss points for constructor-accepted combinations of {VonMises, Hill with random anisotropy, DruckerPrager} x {none, Linear, Voce, Swift} x {none, Prager, Armstrong-Frederick, Chaboche 2-3} x {rate-independent, Norton, Perzyna} x {0-2 Maxwell branches} x {3-D, plane strain, plane stress} x {auto, newton}; the harness commits the trial state itself and evaluates after every converged step, from the configured surface / hardening callables and the elastic stiffness: f(sigma - X, R) <= tol and = 0 when flowing (overstress when viscoplastic), dp >= 0, tr(eps_p) = 0, plastic and branch dissipation >= 0, sigma = d(psi)/d(eps) rebuilt in 6-D from the returned state, sigma_zz = 0 under plane stress, the algorithmic tangent against Richardson-extrapolated central differences of Integrate with an error estimate, both local solvers against each other, bit-identical arguments and repeatability; materials without a surface against C : eps and viscoelastic superposition; at simulation level Solve without Save_Iter leaves the committed state and a repeated Solve unchanged, Save_Iter advances it, Set_Iter onto an iteration saved before any Solve restores the virgin state",
+            "paths of 14 (quick) / 25-60 (thorough) steps on 6-12 points; steps the integration reports as not converged (mask, plane-stress assertion or singular local Jacobian) are retried five times smaller, else not judged; tangent judged away from the onset of flow and where the two difference quotients agree to a third of the tolerance (2e-5; 3e-4 under plane stress)",
+            "invariant and reference-model oracles on every step of executed integration histories (trace checker) + purity snapshots of the arguments"),
 }
 
 
